@@ -40,12 +40,22 @@ def _mk_jobs(ctx):
     jobs.append(common.igate_job("rich-od", {"rich.h": rich}, ["rich.h"], "-c", channels=("od",)))
     jobs.append(common.igate_job("rich-oh", {"rich.h": rich}, ["rich.h"], "-python", channels=("oh",)))
     jobs.append(common.igate_job("rich-oc-od", {"rich.h": rich}, ["rich.h"], "-python-native", channels=("oc", "od"), opts=["-string", "-unique-names"]))
+    jobs.append(common.igate_job("rich-fptrs", {"rich.h": rich}, ["rich.h"], "-python-native", opts=["-fptrs", "-unique-names"]))
+    jobs.append(common.igate_job("rich-fptrs-c", {"rich.h": rich}, ["rich.h"], "-c", opts=["-fptrs", "-fnames", "-do-module"]))
+    # the same job with -srcdir given before the (relative) output options
+    j = common.igate_job("rich-srcdir-first", {"rich.h": rich}, ["rich.h"], "-python")
+    a = j["argv"]
+    i = a.index("-srcdir")
+    j["argv"] = a[i:i + 2] + a[:i] + a[i + 2:]
+    jobs.append(j)
     # seeded big headers: output sizes (hence number and boundaries of write calls) vary with the seed
     nbig = 2 if ctx.tier == "quick" else 6
     for i in range(nbig):
         n = rng.range(8, 40) if ctx.tier == "quick" else rng.range(8, 120)
         be = rng.choice(common.BACKENDS)
-        opts = rng.subset(["-string", "-fnames", "-unique-names", "-promiscuous", "-nomangle"], 1, 3)
+        opts = rng.subset(["-string", "-fnames", "-unique-names", "-promiscuous", "-nomangle", "-fptrs", "-do-module", "-refcount", "-true-names", "-spam"], 1, 3)
+        if "-fnames" in opts and "-true-names" in opts:
+            opts.remove("-true-names")
         if "-fnames" in opts and be == "-python-native":
             opts.remove("-fnames")
         jobs.append(common.igate_job("big%d" % i, {"big.h": common.big_header(rng.next(), n)}, ["big.h"], be, opts=opts))
@@ -211,6 +221,7 @@ def execute(plan):
             target = os.path.join(root, rel)
             if f["kind"] == "missingdir":
                 os.rmdir(os.path.dirname(target))
+                os.makedirs(os.path.join(root, "src", os.path.dirname(rel)), exist_ok=True)
             elif f["kind"] == "isdir":
                 os.makedirs(target)
             elif f["kind"] == "devfull":
